@@ -495,6 +495,14 @@ func VerifHandleQueued(m *Memberlist, msgType uint8, body []byte, from net.Addr)
 	return false
 }
 
+// VerifWithNodeLock runs f while holding the membership lock (interleaving control: calls started
+// inside f queue up on the lock in the order they reach it).
+func VerifWithNodeLock(m *Memberlist, f func()) {
+	m.nodeLock.Lock()
+	defer m.nodeLock.Unlock()
+	f()
+}
+
 // VerifEncodeUserMsgHeader encodes a userMsgHeader with an arbitrary declared length.
 func VerifEncodeUserMsgHeader(n int) []byte {
 	buf, _ := encode(userMsg, &userMsgHeader{UserMsgLen: n}, false)
